@@ -78,6 +78,19 @@ type vC11Lab struct {
 	root, ns1, ns2 *vC11Auth
 	remap          map[string]string
 	udpSeen        atomic.Int64
+	asked          sync.Map // lower-cased query name -> *atomic.Int64: queries ns1/ns2 received for it (UDP and TCP)
+}
+
+func (l *vC11Lab) note(name string) {
+	v, _ := l.asked.LoadOrStore(strings.ToLower(name), new(atomic.Int64))
+	v.(*atomic.Int64).Add(1)
+}
+
+func (l *vC11Lab) askedFor(name string) int64 {
+	if v, ok := l.asked.Load(strings.ToLower(name)); ok {
+		return v.(*atomic.Int64).Load()
+	}
+	return 0
 }
 
 func vC11RR(s string) dns.RR {
@@ -182,6 +195,7 @@ func (a *vC11Auth) serveUDP() {
 			send(a.answer(r))
 			continue
 		}
+		a.lab.note(r.Question[0].Name)
 		switch a.script(r.Question[0]) {
 		case "ok":
 			send(a.answer(r))
@@ -255,6 +269,7 @@ func (a *vC11Auth) serveTCP() {
 			script := "tcok"
 			if a.idx != 0 {
 				script = a.script(r.Question[0])
+				a.lab.note(r.Question[0].Name)
 			}
 			reply := func(m *dns.Msg) {
 				out, err := m.Pack()
@@ -466,6 +481,13 @@ func TestVerifC11Lab(t *testing.T) {
 		//   impatient  - clients whose budget ends while their exchange is in the air, one
 		//                after another, then a client with a normal budget: it must not pay
 		//                for the others' expiry
+		//   shed       - a zone held at its in-flight quota by names whose servers answer only
+		//                after the clients' budgets (with a long per-exchange timeout, so that
+		//                no exchange times out and no name server is ever at fault: every
+		//                lookup ends with its own client's deadline); a client asks an
+		//                answerable name of that zone meanwhile (it may be refused: that is its
+		//                own SERVFAIL), and once the zone is idle again OTHER clients ask the
+		//                same name: they must be resolved, not served the first client's refusal
 		tmpl := ""
 		switch r.Intn(8) {
 		case 0:
@@ -474,8 +496,10 @@ func TestVerifC11Lab(t *testing.T) {
 			tmpl = "flood"
 		case 2:
 			tmpl = "impatient"
+		case 3:
+			tmpl = "shed"
 		}
-		longNet := r.Intn(3) == 0 && tmpl == ""
+		longNet := (r.Intn(3) == 0 && tmpl == "") || tmpl == "shed"
 		if longNet {
 			cfg.Timeout.Duration = 2 * time.Second
 		}
@@ -494,7 +518,7 @@ func TestVerifC11Lab(t *testing.T) {
 		if tiny {
 			cfg.MaxConcurrentQueries = 1 + r.Intn(2) // forces capacity refusals
 		}
-		if tmpl == "flood" {
+		if tmpl == "flood" || tmpl == "shed" {
 			cfg.MaxConcurrentQueries = 64 // per-zone quota 16, global pool with room to spare
 		}
 		h := New(cfg)
@@ -515,13 +539,13 @@ func TestVerifC11Lab(t *testing.T) {
 		// without the cache in front, duplicates meet in the resolver's own singleflight
 		// (groupLookup): followers of a leader whose client left must still be answered
 		handlers := []middleware.Handler{cm, h}
-		nocache := r.Intn(3) == 0 && tmpl != "flood"
+		nocache := r.Intn(3) == 0 && tmpl != "flood" && tmpl != "shed"
 		if nocache {
 			handlers = []middleware.Handler{h}
 		}
 		// steady state: a resolver that has already talked to both name servers (their
 		// round-trip times are measured, so it races the two fastest instead of probing)
-		warmed := quickWin || tmpl == "flood" || tmpl == "impatient" || r.Intn(2) == 0
+		warmed := quickWin || tmpl == "flood" || tmpl == "impatient" || tmpl == "shed" || r.Intn(2) == 0
 		if warmed {
 			for wq := 0; wq < 4; wq++ {
 				serial++
@@ -550,6 +574,11 @@ func TestVerifC11Lab(t *testing.T) {
 			cancelled bool
 			budget    time.Duration
 			serial    bool // the next client comes only after this one has its reply
+			barrier   bool // comes only after every earlier client has its reply
+			pause     time.Duration // comes this long after the previous client was launched
+			askedPre  int64
+			askedPost int64
+			again     bool // asks a name an earlier client of this scenario asked
 		}
 		newQ := func(s1, s2 string, expect int) *qrec {
 			serial++
@@ -631,6 +660,31 @@ func TestVerifC11Lab(t *testing.T) {
 			for i := 0; i < 24+r.Intn(17); i++ {
 				qs = append(qs, newQ(silent[r.Intn(3)], silent[r.Intn(3)], 2))
 			}
+		case "shed":
+			// the zone at its quota: more slow names than the quota admits, all at once
+			for i := 0; i < 18+r.Intn(6); i++ {
+				qs = append(qs, newQ("late", "late", 2))
+			}
+			// the victims: answerable names asked while the zone is saturated (1-2 names, 1-2
+			// clients each at once: the second is a follower of the first in the cache's dedup)
+			var victims []*qrec
+			for v := 0; v < 1+r.Intn(2); v++ {
+				first := newQ("ok", "ok", 0)
+				if v == 0 {
+					first.pause = 30 * time.Millisecond // the slow lookups have reached the zone by now
+				}
+				victims = append(victims, first)
+				qs = append(qs, first)
+				if r.Intn(2) == 0 {
+					qs = append(qs, &qrec{name: first.name, s1: "ok", s2: "ok", expect: 0, cancelAt: -1, tr: &vC11LabTransport{}, done: make(chan struct{}), budget: qt, again: true})
+				}
+			}
+			// afterwards, the zone idle: other clients ask the victims' names
+			for i, v := range victims {
+				q := &qrec{name: v.name, s1: "ok", s2: "ok", expect: 1, cancelAt: -1, tr: &vC11LabTransport{}, done: make(chan struct{}), budget: qt, serial: true, again: true}
+				q.barrier = i == 0
+				qs = append(qs, q)
+			}
 		case "impatient":
 			for i := 0; i < 6+r.Intn(4); i++ {
 				q := newQ("lag", "lag", 0)
@@ -679,9 +733,19 @@ func TestVerifC11Lab(t *testing.T) {
 			}()
 		}
 		for qi, q := range qs {
+			if q.barrier {
+				for j := 0; j < qi; j++ {
+					waitOne(j, qs[j], &inconclusive, &goFail)
+				}
+			}
+			if q.pause > 0 {
+				time.Sleep(q.pause)
+			}
+			q.askedPre = lab.askedFor(q.name)
 			launch(q)
 			if q.serial {
 				waitOne(qi, q, &inconclusive, &goFail)
+				q.askedPost = lab.askedFor(q.name)
 			}
 			if r.Intn(3) == 0 && !leaderLeaves && tmpl == "" {
 				time.Sleep(time.Duration(r.Intn(30)) * time.Millisecond)
@@ -764,12 +828,19 @@ func TestVerifC11Lab(t *testing.T) {
 				cls = 8
 			}
 			obs = append(obs, fmt.Sprintf("mk_lobs %d %d %d %d %v", q.expect, writes, cls, lat, q.cancelled))
-			desc = append(desc, map[string]any{"i": i, "name": q.name, "ns1": q.s1, "ns2": q.s2, "expect": []string{"either", "NOERROR", "SERVFAIL"}[q.expect], "writes": writes, "class": cls, "latency_ms": lat, "client_went_away": q.cancelled})
+			desc = append(desc, map[string]any{"i": i, "name": q.name, "ns1": q.s1, "ns2": q.s2, "expect": []string{"either", "NOERROR", "SERVFAIL"}[q.expect], "writes": writes, "class": cls, "latency_ms": lat, "client_went_away": q.cancelled, "asked_again": q.again, "authority_queries_for_name_before": q.askedPre, "authority_queries_for_name_after": q.askedPost})
 			if writes > 1 && goFail == "" {
 				goFail = fmt.Sprintf("query %d (%s): %d writes", i, q.name, writes)
 			}
 			if writes == 0 && !q.cancelled && goFail == "" {
 				goFail = fmt.Sprintf("query %d (%s): no reply", i, q.name)
+			}
+			// a count, not a duration: a client that came alone (serial), after everybody else had
+			// been answered, for a name both of whose servers answer, was failed although no name
+			// server was asked anything for it: the failure it got is somebody else's, kept in
+			// shared state
+			if q.serial && q.again && q.expect == 1 && writes == 1 && rcode == dns.RcodeServerFailure && q.askedPost == q.askedPre && goFail == "" {
+				goFail = fmt.Sprintf("query %d (%s): another client's failure was served to this one: SERVFAIL in %d ms, and its name servers were not asked for the name (asked %d times before and after)", i, q.name, lat, q.askedPre)
 			}
 			if recovered, was := retried[q]; was && recovered {
 				// failed at the end of its budget, but the same query asked again alone is
@@ -824,7 +895,8 @@ func TestVerifC11Lab(t *testing.T) {
 			}
 			for _, q := range qs {
 				q.tr.mu.Lock()
-				if q.expect == 1 && !q.cancelled && q.tr.writes == 1 && q.tr.rcode == dns.RcodeServerFailure {
+				if q.expect == 1 && !q.cancelled && q.tr.writes == 1 && q.tr.rcode == dns.RcodeServerFailure &&
+					!(q.serial && q.again && q.askedPost == q.askedPre) { // that one is a count, not a duration
 					inconclusive = true
 				}
 				q.tr.mu.Unlock()
